@@ -12,14 +12,16 @@ THEOREMS = ['Ymq.C03.factor_total', 'Ymq.C03.factorImpl_total']
 PROFILES = ["release", "chk"]
 TIMEOUT = 60.0
 RULE = ("every selector (inside its size precondition) x {0..300, products of 2-4 primes just above 199, 15-40 bit composites, "
-        "semiprimes of every bit length 41..64, 2^64 +- small, 2^128 +- small, all-ones words, 495-510-bit primes / prime squares / "
-        "smooth*prime, 511+ bit (must be refused)}; both build profiles; panic / abort / no answer within the watchdog = crash; "
+        "semiprimes of every bit length 41..64, 2^64 +- small, 2^128 +- small, all-ones words, 480-500-bit primes / prime squares / "
+        "smooth*prime, 501+ bit (must be refused)}; both build profiles; panic / abort / no answer within the watchdog = crash; "
         "non-trivial = n > 3; distinct by request line")
 MODELLED = ["panic sites of lib.rs (asserts, unreachable!, division by zero, residue.is_one()) in Ymq/Model/Factor.lean; the replay "
             "classifies each observed crash as predicted-by-model (inside lib.rs) or outside the model (inside a sub-algorithm)"]
 UNMODELLED = ["panics inside sub-algorithms (sieve internals, bnum), stack exhaustion and hangs are found only by the exploration half",
 ]
 HYPOTHESES = ['OracleOK (sub-algorithms return genuine splits)', 'SelectorPre: alg in {qs64, rho, squfof} -> bits n <= 64', 'bits n <= fuel']
+
+U8_ACC_N = 331552517952337439894544119526195039416927524384958668275159339842046736404971009142718510776090531887781083720415365209
 
 P200 = [211, 223, 227, 229, 233, 239, 241, 251, 257, 263, 269, 271, 277, 281, 283, 293]
 
@@ -89,14 +91,27 @@ def cases(tier, rng, extended=False):
                 algs = [a for a in algs if a in ("auto", "siqs", "ecm128")]
             yield from emit(n, algs, tag="word-boundary")
     # near the size limit and above it
-    for bits in (495, 500, 505, 509, 510):
+    for bits in (480, 490, 495, 499, 500):
         p = gen.rand_prime(rng, bits)
         yield from emit(p, ["auto", "siqs", "ecm", "pm1"], tag="near-limit", timeout=120)
         q = gen.rand_prime(rng, bits // 2)
         yield from emit(q * q, ["auto", "siqs"], tag="near-limit", timeout=120)
         r = gen.rand_prime(rng, bits - 12)
         yield from emit(r * 211 * 2 * 3, ["auto"], tag="near-limit", timeout=120)
-    for bits in (511, 512, 513, 520, 600, 1000, 1024):
+    # near-limit composites with a small factor: ECM (modular inversions on ~500-bit moduli) in both profiles;
+    # Auto once (P-1 with its largest hard-wired bounds takes most of a minute)
+    for i, bits in enumerate((470, 485, 495, 499, 500) if quick else (470, 480, 485, 490, 495, 498, 499, 500, 500)):
+        p = gen.rand_prime(rng, rng.randint(24, 40))
+        q = gen.rand_prime(rng, bits - p.bit_length())
+        n = p * q
+        if n.bit_length() > 500:
+            continue
+        yield from emit(n, ["ecm"], tag="near-limit", timeout=300)
+        if bits == 495 or (not quick and i % 3 == 0):
+            for c in emit(n, ["auto"], tag="near-limit", timeout=400):
+                c.profiles = ["chk"] if quick else None
+                yield c
+    for bits in (501, 502, 505, 510, 511, 512, 513, 520, 600, 1000, 1024):
         n = (1 << (bits - 1)) + rng.getrandbits(bits - 2) * 2 + 1
         yield from emit(n, ["auto", "siqs", "ecm", "pm1", "qs", "mpqs"], tag="above-limit")
         yield from emit(1 << (bits - 1), ["auto"], tag="above-limit")
@@ -107,7 +122,7 @@ def oracle(case, ans):
     kind = fc.parse_answer(ans)[0]
     if kind in ("ok", "failure"):
         if case.tag == "above-limit" and kind != "failure":
-            return f"input above 510 bits was not refused ({kind})"
+            return f"input above 500 bits was not refused ({kind})"
         return None
     return f"factor() did not return: {kind}"
 
@@ -121,6 +136,8 @@ def finding_key(case, ans, profile):
             red //= p
     if kind == "panic" and alg == "mpqs" and red == 58649 and profile == "chk":
         return "mpqs-make_poly-underflow:58649"
+    if kind == "panic" and alg == "qs" and n == U8_ACC_N and profile == "chk":
+        return "sieve-u8-log-accumulator-overflow"
     return None
 
 
@@ -154,4 +171,7 @@ TECHNIQUE = "Lean 4 proof of unreachability of modelled panic sites + both-profi
 
 
 def corpus_case(line):
+    # `!chk <request>`: only in the checked profile (e.g. a recorded overflow that release builds wrap silently)
+    if line.startswith("!chk "):
+        return Case(line[5:], k=False, tag="corpus", profiles=["chk"], timeout=180)
     return Case(line, k=False, tag="corpus")
